@@ -240,9 +240,3 @@ Fixpoint wf_secs (k1 k2 : bool) (ss : list sec) : bool :=
 Definition wf_op (o : op) : bool := wf_secs false false o.
 Definition wf_threads (k1 k2 : bool) (ths : list (list op)) : Prop :=
   Forall (Forall (fun o => wf_secs k1 k2 o = true)) ths.
-
-(* observable part of the final state (everything but the `loaded` cache flag, which
-   legitimately depends on whether an InvalidateCertificatePool came last) *)
-Definition obs (st : state) := (s_fonts st, s_once st, s_err st, s_cfg st, s_dir st, s_rev st, s_pool st).
-
-Definition all_done (ps : list prog) : Prop := Forall (fun p => p = []) ps.
